@@ -17,7 +17,7 @@ def queries(tier):
                     unwind_default=17,
                     bounds="source value: all 2^w values of %s; target in {c,b,y,n,q,i,u,x,t,l}" % ty,
                     outside="vector targets"))
-    TXT_UNITS = ["mptcore/convert/%s.c" % f for f in ("convert_string", "convert_number", "convert_int", "cdouble", "cfloat", "cldouble", "convert_key")] + [
+    TXT_UNITS = ["mptcore/convert/%s.c" % f for f in ("convert_string", "convert_number", "convert_int", "cdouble", "cfloat", "cldouble", "convert_key", "valfmt_get")] + [
         "mptcore/types/type_int.c"]
     for fmt in "bynqiuxtl":
         qs.append(Q("text2int_" + fmt, "C07/text2int.c", units=TXT_UNITS,
